@@ -233,6 +233,9 @@ func scenC05(r *Run) {
 			prev := [][]byte{[]byte(`s5"abc`), {}, []byte(`s3"own"`), make([]byte, 0, 16)}[cases%4]
 			keep := append([]byte(nil), prev...)
 			d0.ResetBytes(prev).Simple(false)
+			// ... with every option away from its default: none of them may be visible in the next use
+			d0.LongType, d0.RealType, d0.MapType = hio.LongTypeBigInt, hio.RealTypeFloat32, hio.MapTypeSIMap
+			d0.StructType, d0.ListType = hio.StructTypeValue, hio.ListTypeSlice
 			var junk string
 			d0.Decode(&junk)
 			hio.FreeDecoder(d0)
